@@ -122,6 +122,7 @@ theorem noLost_step {s s' : State} {a : Act} (hL : InvL s) (hS : InvS s) (hI : N
        have := hI h'
        simp [hl, setH, upd, willScan, atWrite] at *
        first | done | grind)
+  | eintr w => cases step?_eintr hs; exact hI
   | closeCbs =>
     simp only [step?] at hs
     split at hs
@@ -160,6 +161,7 @@ theorem cbLe_step {s s' : State} {a : Act} (hL : InvL s) (hI : CbLe s) (hs : ste
     repeat' split at hs
     all_goals first | (simp at hs; done) | skip
     all_goals (simp only [Option.some.injEq] at hs; subst hs; intro h'; have := hI h'; simp [setH, upd] at *; first | done | grind)
+  | eintr w => cases step?_eintr hs; exact hI
   | closeCbs =>
     simp only [step?] at hs
     repeat' split at hs
@@ -201,6 +203,7 @@ theorem seenOrPending_step {s s' : State} {a : Act} (hS : InvS s) (hI : SeenOrPe
     all_goals first | (simp at hs; done) | skip
     all_goals (simp only [Option.some.injEq] at hs; subst hs; intro t' x' hx' hp hc; have := hI t' x'
                simp [setH, upd, published] at *; first | done | grind)
+  | eintr w => cases step?_eintr hs; exact hI
   | closeCbs =>
     simp only [step?] at hs
     repeat' split at hs
@@ -320,6 +323,7 @@ theorem invB_step {s s' : State} {a : Act} (hL : InvL s) (hI : InvB s) (hs : ste
                constructor
                · intro h'; have := hb h'; simp [setH, upd] at *; first | done | grind
                · intro t' x' hx' hp; have := hw t' x' hx' hp; simp [setH, upd] at *; first | done | grind)
+  | eintr w => cases step?_eintr hs; exact hI
   | closeCbs =>
     simp only [step?] at hs
     repeat' split at hs
